@@ -14,12 +14,12 @@ use vcommon::{json, Value};
 #[derive(Clone, Copy, PartialEq, Eq, Hash, Debug, PartialOrd, Ord)]
 pub struct Shape {
     pub size: u16,
-    pub align: u8,
+    pub align: u16,
     pub uninit: bool,
 }
 
 impl Shape {
-    pub const fn new(size: u16, align: u8) -> Self {
+    pub const fn new(size: u16, align: u16) -> Self {
         Shape {
             size,
             align,
@@ -39,7 +39,7 @@ impl Shape {
     pub fn from_json(v: &Value) -> Self {
         Shape {
             size: v[0].as_u64().unwrap() as u16,
-            align: v[1].as_u64().unwrap() as u8,
+            align: v[1].as_u64().unwrap() as u16,
             uninit: v.get(2).is_some(),
         }
     }
